@@ -1,6 +1,7 @@
 -- root of the library: every property module (each imports its models, generated tables and lemmas)
 import ConjureVerif.Props.C06
 import ConjureVerif.Props.C07
+import ConjureVerif.Props.C08
 import ConjureVerif.Props.C11
 import ConjureVerif.Props.C12
 import ConjureVerif.Props.C15
